@@ -66,7 +66,9 @@ func lags(code byte) bool { return in(code, 0x03, 0x04, 0x0f, 0x11, 0x81, 0x87, 
 func neutral(c *mon.Ctx, tag byte, body []byte) {
 	d := psi.NewPmtDescriptor(tag, body)
 	c.Eval(1)
-	w := func(s string) wit { return wit{Case: "foreign tag", Tag: fmt.Sprintf("%#02x", tag), Body: mon.Hex(body), Detail: s} }
+	w := func(s string) wit {
+		return wit{Case: "foreign tag", Tag: fmt.Sprintf("%#02x", tag), Body: mon.Hex(body), Detail: s}
+	}
 	if d.Tag() != tag {
 		c.Fail("descriptor:tag", "Tag() does not echo the tag", w(""))
 	}
